@@ -748,8 +748,6 @@ class SpecRuns:
         self.witness = [
             ("Receive_witness: no delivery ever reaches a circuit handler", "NeverCircuitHandler",
              self.go("ReceiveMC.tla", "Receive_witness.cfg", coverage=False, workers=small)),
-            ("Receive_reg_witness: no two overlays ever share a prefix", "NeverShared",
-             self.go("ReceiveMC.tla", "Receive_reg_witness.cfg", coverage=False, workers=small)),
             ("WireStrict_witness: the strict decoder never accepts anything", "SometimesOk",
              self.go("WireStrictMC.tla", "WireStrict_witness.cfg", coverage=False, workers=small, java_opts=xss))]
         # one -continue run of the tables instance with the deviations switched on ({"pair", "exit"} and {"rdv"} as two
@@ -868,9 +866,10 @@ def registrations(ctx, rx, specs, tier, seed):
             if ev["op"] == "recv":
                 ctx.nontrivial(("reg", tuple(map(tuple, (e["m"] for e in sg["events"] if "m" in e))), tuple(ev["head"])))
     rx.reg_segments = segs
+    rx.ok = rx.ok and not finds
     rx.n_recv += n["deliveries"]
-    if segs:
-        rx.jobs.append((segs, specs.pool.submit(rx.tlc_validate, segs)))
+    for i in range(0, len(segs), 1500):
+        rx.jobs.append((segs[i:i + 1500], specs.pool.submit(rx.tlc_validate, segs[i:i + 1500])))
     return n
 
 
@@ -1156,7 +1155,12 @@ def run(tier, seed, replay=None):
     dx = Dx(ctx, tier, seed)
     dx.run()
     dx.submit(specs.pool)
-    controls = trace_controls(rx, dx, specs.pool)
+    try:
+        controls, ctl_err = trace_controls(rx, dx, specs.pool), None
+    except Exception as e:  # noqa: BLE001
+        # the controls corrupt what an ACCEPTED trace contains; on a tree whose traces are rejected the material may be
+        # missing - that is decided below, once the verdict on the traces is known
+        controls, ctl_err = [], e
 
     ok_rx = rx.apply_all("receive_trace")
     ctx.evaluated(rx.n_recv)
@@ -1168,6 +1172,9 @@ def run(tier, seed, replay=None):
     if ev:
         ctx.sample({"decode": {k: v for k, v in ev.items() if k != "v"}})
     if ok_rx and ok_dx:
+        if ctl_err is not None:
+            raise ctl_err if isinstance(ctl_err, MachineryError) else MachineryError(
+                "trace controls could not be built on accepted traces: %r" % (ctl_err,))
         for name, fut in controls:
             ctx.control(name, fut.result())
     else:
